@@ -1020,7 +1020,7 @@ fn do_scheduled_action<M: AsRef<[Machine]>>(
                     client: is_client,
                     until,
                     bypassable: event_bypass,
-                    updated: replace || block > verif_before.unwrap_or(a.time),
+                    updated: replace || verif_before.map_or(true, |until| block > until),
                 });
             }
 
